@@ -169,9 +169,20 @@ pub fn generate(seed: u64, tier: Tier) -> Case {
                 path: format!("notes{k}.txt"),
                 content: Blob::text("type NotAModule { a: u32 }"),
             }),
-            1 => world.input.push(Node::Dir {
-                path: format!("emptydir{k}/inner"),
-            }),
+            1 => {
+                world.input.push(Node::Dir {
+                    path: format!("emptydir{k}/inner"),
+                });
+                // A hidden module and a file that only looks like one.
+                world.input.push(Node::File {
+                    path: format!(".hidden{k}.pyxis"),
+                    content: Blob::text(format!("pub type Hidden{k} {{ pub a: u8 }}\n")),
+                });
+                world.input.push(Node::File {
+                    path: format!("UPPER{k}.PYXIS"),
+                    content: Blob::text("this is not a module {{{"),
+                });
+            }
             _ => world.input.push(Node::File {
                 path: format!("d00/readme{k}.pyxis.bak"),
                 content: Blob::text("garbage {{{"),
